@@ -133,6 +133,30 @@ CHECKS.update({
   technique="contract-based deductive verification: loop invariants over maps, postconditions, lock obligations, plugin-invariant stability obligations", ref="DESIGN.md section 7 (C10)"),
 })
 
+CHECKS.update({
+ "C01": dict(
+  text=("Deductive no-panic / no-lock-leak / at-most-one-reply proof over the whole datagram path of the real code: both Serve loops (pooled buffer type and capacity, spawn preconditions), HandleMsg4, HandleMsg6, sendEthernet (Go-level part), "
+        "every built-in Handler4/Handler6 and the sleep closures, the allocators, addPrefix/dup/samePrefix/recordKey, saveIPAddress - about 2000 obligations generated without annotation for every nil dereference, nil-map store, index and slice bound (including capacity), "
+        "failed type assertion, division, negative make, reachable panic/log.Fatal, plus lock obligations (no Lock of a held mutex, no Unlock of a free one, every exit leaves every touched mutex as it was at entry - so `a panic leaves the plugin mutex held` is covered by proving there is no panic), "
+        "termination by loop shape (range loops over a slice or map evaluated once; other loops need a decreases clause or a stated assumption), and the postcondition `sent == old(sent) or old(sent)+1` of HandleMsg4/6 with `handlers send nothing` from the type contracts. "
+        "Histories are covered by induction: every handler is proved under its state invariant and proved to preserve it."),
+  note=SRV_NOTE + " Main residue: panic-freedom and termination of the codec (FromBytes/ToBytes on arbitrary bytes), gopacket, sqlite, logrus, and blocking inside WriteTo/Sendto/time.Sleep are outside /repo and assumed. The receive loops are meant to run forever; loadRecords' row loop is assumed finite.",
+  technique="contract-based deductive verification: annotation-free safety obligations, lock obligations, loop invariants, type contracts", ref="DESIGN.md section 7 (C01)"),
+ "C16": dict(
+  text=("Lock-invariant reasoning, machine-checked per function: (1) every access to state declared `guard`ed (allocator bitmaps, PluginState.Recordsv4, Handler.Records, file.StaticRecords) happens with its mutex held (read-held suffices for reads under the RWMutex); "
+        "(2) Lock/RLock are never called on a mutex the goroutine holds, Unlock/RUnlock only on one it holds, and every exit leaves each touched mutex as at entry; (3) for the two allocators the state protected by the mutex is HAVOCKED at every acquisition (what other goroutines left there, "
+        "up to the invariant) and the C04-C07 postconditions are proved about the critical section, so a check-then-act split over two critical sections fails; (4) the receive-buffer pool only holds full-capacity buffers and handlers receive freshly parsed, non-aliased packets. "
+        "From (1)-(3) freedom from data races on the guarded state and preservation of the data-structure invariants at every critical-section boundary in every schedule follow by the classical lock-invariant argument (DESIGN 2.9) - that meta-argument is on paper."),
+  note=SRV_NOTE + " NOT claimed: equality of the reply set with a serial order at message granularity (the prefix plugin releases its mutex between the IA_PDs of one message); races inside logrus, fsnotify, sqlite, the codec; logger.GetLogger's double-checked locking (trusted contract; only called from package initialisers); for range/prefix/file the postconditions are sequential (the map state is not havocked at acquisition). The Go race detector is used only to replay one lock obligation, not as a deciding method.",
+  technique="contract-based deductive verification: lock-ownership obligations (guarded-by), lock-invariant havoc at acquisition", ref="DESIGN.md section 7 (C16), 2.9"),
+ "C18": dict(
+  text=("Deductive proof on the real config package: no panic in parsePlugins, splitHostPort, getListenAddress, getPlugins, parseListen, parseConfig, expandLLMulticast, defaultListen for any configuration tree (the two `BUG` panics are unreachable after protoVersionCheck; string slicing at the zone separator is in bounds); "
+        "getListenAddress returns an address or an error, with port 67/547 filled in when no port is written, the protocol's wildcard address when no address is written, the zone carried over, and an address of the protocol's family (wrong family, unparseable address or port: error); "
+        "parsePlugins yields exactly one entry per list item, in order, and every item names exactly one plugin."),
+  note=COMMON_NOTE + " viper, cast, yaml.v3, net.SplitHostPort, strconv and net.Interfaces are outside /repo: uninterpreted and assumed panic-free - `no configuration TEXT makes loading panic` is therefore decided only for the code in /repo; Load itself (file lookup) and `listen`/`interface` conflict handling are covered for safety only.",
+  technique="contract-based deductive verification: safety obligations, postconditions, loop invariant, keyed assertion", ref="DESIGN.md section 7 (C18)"),
+})
+
 NOT_YET = {}
 
 def main():
